@@ -158,6 +158,33 @@ func main() {
 			fmt.Fprintf(os.Stderr, "@case %d\n", i)
 			writeCase(w, c, safeExec(p, c))
 		}
+	case "race":
+		// the cases that run real goroutines against each other (a property opts in through RaceCase), executed one after
+		// the other in a binary built with the race detector; the runner reads the detector's report from stderr
+		name, tier := os.Args[2], os.Args[4]
+		seed, _ := strconv.ParseInt(os.Args[3], 10, 64)
+		p, ok := registry[name]
+		if !ok {
+			os.Exit(2)
+		}
+		rc, ok := p.(interface{ RaceCase(c Case) bool })
+		if !ok {
+			fmt.Fprintln(w, "race-cases 0")
+			return
+		}
+		n, ran := p.Count(tier), 0
+		for i := 0; i < n; i++ {
+			rng := rand.New(rand.NewSource(seed*1000003 + int64(i)))
+			c := p.Gen(rng, tier, i)
+			c.Prop, c.Seed, c.Idx = name, seed, i
+			if !rc.RaceCase(c) {
+				continue
+			}
+			fmt.Fprintf(os.Stderr, "@case %d\n", i)
+			safeExec(p, c)
+			ran++
+		}
+		fmt.Fprintf(w, "race-cases %d\n", ran)
 	case "printcase", "one": // the text of generated case <idx> without / with executing it (crash localisation)
 		name, tier := os.Args[2], os.Args[4]
 		seed, _ := strconv.ParseInt(os.Args[3], 10, 64)
